@@ -1036,13 +1036,35 @@ def _flows_to_result(body, hid):
             writes.append(([b["hid"] for b in pat_bindings(x["pat"])], x["iter"]))
         elif k == "Closure":
             pass
+    def vtails(e):
+        """the expressions whose value `e` evaluates to (statements inside blocks are not values of e)"""
+        e = peel(e)
+        if not isinstance(e, dict):
+            return []
+        k = e.get("k")
+        if k == "Block":
+            return vtails(e["e"]) if e.get("e") is not None else []
+        if k == "Match":
+            return [e["scrut"]] + [t for a_ in e["arms"] for t in vtails(a_["body"])] if False else [t for a_ in e["arms"] for t in vtails(a_["body"])]
+        if k == "If":
+            return vtails(e["t"]) + (vtails(e["e"]) if e.get("e") is not None else [])
+        if k == "Try":
+            return vtails(e["e"])
+        return [e]
+
+    def reads_S(rhs):
+        for t in vtails(rhs):
+            # a call's value depends on its arguments; a nested block inside an argument is its own scope of statements
+            if any(p_.get("res") == "Local" and p_.get("hid") in S for p_ in nodes(t, "Path")):
+                return True
+        return False
     changed = True
     while changed:
         changed = False
         for tgts, rhs in writes:
             if all(t in S for t in tgts):
                 continue
-            if any(p_.get("res") == "Local" and p_.get("hid") in S for p_ in nodes(rhs, "Path")):
+            if reads_S(rhs):
                 S.update(tgts)
                 changed = True
     for x in nodes(body):
@@ -1055,6 +1077,15 @@ def _flows_to_result(body, hid):
         elif k == "Ret" and x.get("e") is not None:
             if any(p_.get("res") == "Local" and p_.get("hid") in S for p_ in nodes(x["e"], "Path")):
                 return True
+        elif k == "MethodCall" and callee(x) in (TC + "unify_option", TC + "unify") and len(x["args"]) >= 4:
+            # unified with a type that is always there (the declared return type of the function literal being checked): the
+            # comparison itself is the use, whatever happens to the call's value
+            a, b = x["args"][2], x["args"][3]
+            for mine, other in ((a, b), (b, a)):
+                if any(p_.get("res") == "Local" and p_.get("hid") in S for p_ in nodes(mine, "Path")):
+                    o = peel(other)
+                    if callee(x) == TC + "unify" or (o.get("k") == "Call" and (callee(o) or "").endswith("Option::Some")):
+                        return True
 
     def value_tails(e):
         e = peel(e)
